@@ -895,7 +895,7 @@ Proof.
     destruct (get_param t h) as [[n p]|] eqn:G.
     2:{ inv H. ssplit; auto. apply shk_refl. }
     destruct (get_param_some _ _ _ _ G) as (Sn & Dn & _).
-    destruct (vn_fvalid v && negb (range_ok (frange (S (length (pt_slots t))) t n) (vn_f0 v) (vn_fmax v)))%bool.
+    destruct (vn_ranged v && negb (range_ok (frange (S (length (pt_slots t))) t n) (vn_f0 v) (vn_fmax v)))%bool.
     { inv H. ssplit; auto. apply shk_refl. }
     assert (Reg : forall t1 v1, inv_table t1 -> RI t1 (fun x => c0 x + cnt (vn_params v1) x) -> shk t t1 ->
               let unk := match p_kind p with KUnknown _ _ | KCorrelated _ _ => true | _ => false end in
@@ -1134,7 +1134,7 @@ Lemma write_back_good : forall t v h c,
   inv_table t -> RI t c -> inv_table (write_back t v h) /\ RI (write_back t v h) c /\ shk t (write_back t v h).
 Proof.
   intros t v h c I R. unfold write_back. destruct (slot t h) as [p|] eqn:S.
-  - set (sv := Solved _ _).
+  - set (sv := if vn_nf v =? 0 then Unsolved else Solved _ _).
     set (k := match p_kind p with KUnknown o _ => KUnknown o sv | KCorrelated o _ => KCorrelated o sv | k0 => k0 end).
     assert (E : other_of k = other_of (p_kind p)) by (unfold k; destruct (p_kind p); auto).
     ssplit.
@@ -1252,7 +1252,7 @@ Proof.
     + eapply acyc_shk; [apply shk_hold|auto].
   - (* set_frequency_vector *)
     destruct (get_new s id) as [v|] eqn:Gn; [|simpl; ssplit; auto; discriminate].
-    destruct (f0 <? 0)%Z; [simpl; ssplit; auto; discriminate|].
+    destruct ((0 <? vn_nf v) && (f0 <? 0)%Z)%bool; [simpl; ssplit; auto; discriminate|].
     match goal with |- context [if ?b then _ else _] => destruct b end; [|simpl; ssplit; auto; discriminate].
     simpl. ssplit; auto; try discriminate. constructor; simpl; auto.
     + eapply RI_ext; [|exact R]. intros x. symmetry. eapply vc_same_params; eauto.
@@ -1281,7 +1281,7 @@ Proof.
   - (* solve *)
     destruct (get_new s id) as [v|] eqn:Gn; [|simpl; ssplit; auto; discriminate].
     destruct (negb (vn_fvalid v)); [simpl; ssplit; auto; discriminate|].
-    destruct (negb oracle_ok); [simpl; ssplit; auto; discriminate|].
+    destruct (negb oracle_ok && (0 <? vn_nf v))%bool; [simpl; ssplit; auto; discriminate|].
     simpl. ssplit; auto; try discriminate.
     destruct (write_back_fold_good (vn_unknowns v) (st_pt s) v _ I R) as (I1 & R1 & K1).
     constructor; simpl; auto.
@@ -1914,7 +1914,7 @@ Proof.
     destruct ((dim <? 1)%Z || negb (type_valid ty))%bool; [apply keeps_refl|].
     simpl. apply shk_keeps, shk_hold.
   - destruct (get_new s id) as [v|]; [|apply keeps_refl].
-    destruct (f0 <? 0)%Z; [apply keeps_refl|].
+    destruct ((0 <? vn_nf v) && (f0 <? 0)%Z)%bool; [apply keeps_refl|].
     match goal with |- context [if ?b then _ else _] => destruct b end; apply keeps_refl.
   - (* add standard *)
     destruct (get_new s id) as [v|] eqn:Gn; [|apply keeps_refl].
@@ -1931,7 +1931,7 @@ Proof.
   - (* solve *)
     destruct (get_new s id) as [v|]; [|apply keeps_refl].
     destruct (negb (vn_fvalid v)); [apply keeps_refl|].
-    destruct (negb oracle_ok); [apply keeps_refl|].
+    destruct (negb oracle_ok && (0 <? vn_nf v))%bool; [apply keeps_refl|].
     simpl. destruct (write_back_fold_good (vn_unknowns v) (st_pt s) v _ I R) as (_ & _ & K1).
     apply shk_keeps. auto.
   - destruct (get_new s id) as [v|]; [|apply keeps_refl].
